@@ -13,6 +13,7 @@ import (
 	cryptocodec "github.com/cosmos/cosmos-sdk/crypto/codec"
 	sdk "github.com/cosmos/cosmos-sdk/types"
 	authtypes "github.com/cosmos/cosmos-sdk/x/auth/types"
+	vestingtypes "github.com/cosmos/cosmos-sdk/x/auth/vesting/types"
 	"github.com/cosmos/cosmos-sdk/x/authz"
 	banktypes "github.com/cosmos/cosmos-sdk/x/bank/types"
 	consensustypes "github.com/cosmos/cosmos-sdk/x/consensus/types"
@@ -147,6 +148,11 @@ func gmsg(w *World, kind string, a Args, auth string) (m sdk.Msg, handwritten bo
 		}
 		return d
 	}
+	shape := a.Str("shape")
+	if shape == "zero" {
+		mm, e := gfill(w, url, auth)
+		return mm, false, e
+	}
 	switch url {
 	case "/cosmos.bank.v1beta1.MsgSend":
 		return banktypes.NewMsgSend(gmustAddr(w, auth), gmustAddr(w, def("to", "user/0")), sdk.NewCoins(sdk.NewCoin(fxtypes.DefaultDenom, sdkmath.NewInt(1)))), true, nil
@@ -166,6 +172,9 @@ func gmsg(w *World, kind string, a Args, auth string) (m sdk.Msg, handwritten bo
 		n := 2
 		if a.Has("n") {
 			n = a.Int("n")
+		}
+		if shape == "empty-list" {
+			n = 0
 		}
 		var list []string
 		for i := 0; i < n; i++ {
@@ -194,6 +203,19 @@ func gmsg(w *World, kind string, a Args, auth string) (m sdk.Msg, handwritten bo
 	case "/fx.erc20.v1.MsgToggleTokenConversion":
 		return &erc20types.MsgToggleTokenConversion{Authority: auth, Token: def("token", fxtypes.DefaultDenom)}, true, nil
 	case "/fx.erc20.v1.MsgUpdateDenomAlias":
+		if shape == "existing-alias" { // removal form: an alias that a registered coin has
+			var found *erc20types.MsgUpdateDenomAlias
+			w.App.BankKeeper.IterateAllDenomMetaData(ctx, func(md banktypes.Metadata) bool {
+				if len(md.DenomUnits) > 0 && len(md.DenomUnits[0].Aliases) > 1 {
+					found = &erc20types.MsgUpdateDenomAlias{Authority: auth, Denom: md.Base, Alias: md.DenomUnits[0].Aliases[0]}
+					return true
+				}
+				return false
+			})
+			if found != nil {
+				return found, true, nil
+			}
+		}
 		return &erc20types.MsgUpdateDenomAlias{Authority: auth, Denom: def("denom", "tka"), Alias: def("alias", "ethfxsimalias")}, true, nil
 	case "/fx.evm.v1.MsgCallContract":
 		// default: WFX.approve(0x..01, marker)
@@ -202,6 +224,22 @@ func gmsg(w *World, kind string, a Args, auth string) (m sdk.Msg, handwritten bo
 	case "/fx.gov.v1.MsgUpdateStore":
 		// keys/old/new are '|' separated lists of equal length
 		keys, olds, news := strings.Split(def("key", "f0"), "|"), strings.Split(a.Str("old"), "|"), strings.Split(a.Str("new"), "|")
+		if shape == "noop" || shape == "delete-form" || shape == "repeated-key" {
+			// aimed at a key that exists: the first key of the gov store
+			space, k0, v0 := "gov", "", ""
+			if kv := w.Prefix(ctx, space, nil); len(kv) > 0 {
+				k0, v0 = hex.EncodeToString(kv[0][0]), hex.EncodeToString(kv[0][1])
+			}
+			a = A("space", space)
+			switch shape {
+			case "noop":
+				keys, olds, news = []string{k0}, []string{v0}, []string{v0}
+			case "delete-form":
+				keys, olds, news = []string{k0}, []string{v0}, []string{""}
+			default:
+				keys, olds, news = []string{k0, k0}, []string{v0, v0}, []string{v0 + "01", v0 + "02"}
+			}
+		}
 		var us []fxgovtypes.UpdateStore
 		for i, k := range keys {
 			u := fxgovtypes.UpdateStore{Space: def("space", "migrate"), Key: k}
@@ -225,6 +263,17 @@ func gmsg(w *World, kind string, a Args, auth string) (m sdk.Msg, handwritten bo
 		return &fxgovtypes.MsgUpdateSwitchParams{Authority: auth, Params: p}, true, nil
 	case "/fx.gov.v1.MsgUpdateCustomParams":
 		mm := &fxgovtypes.MsgUpdateCustomParams{Authority: auth, MsgUrl: def("url", "/fx.erc20.v1.MsgUpdateParams")}
+		switch shape {
+		case "delete-existing": // the delete form aimed at an entry that exists (first in key order)
+			_ = w.App.GovKeeper.CustomerParams.Walk(ctx, nil, func(u string, _ fxgovtypes.CustomParams) (bool, error) {
+				mm.MsgUrl = u
+				return true, nil
+			})
+			return mm, true, nil
+		case "delete-missing":
+			mm.MsgUrl = "/fxsim.NoSuchMsg"
+			return mm, true, nil
+		}
 		if !a.Bool("remove") {
 			mm.CustomParams = *fxgovtypes.NewCustomParams(def("ratio", "0"), time.Duration(a.I64("period"))*time.Second, def("quorum", "0.3"))
 			if !a.Has("period") {
@@ -237,6 +286,9 @@ func gmsg(w *World, kind string, a Args, auth string) (m sdk.Msg, handwritten bo
 		if a.Has("amount") {
 			amt = a.SdkInt("amount")
 		}
+		if shape == "zero-amount" {
+			return &distrtypes.MsgCommunityPoolSpend{Authority: auth, Recipient: gmustAddr(w, def("to", "rcpt/0")).String(), Amount: sdk.Coins{}}, true, nil
+		}
 		return &distrtypes.MsgCommunityPoolSpend{Authority: auth, Recipient: gmustAddr(w, def("to", "rcpt/0")).String(), Amount: sdk.NewCoins(sdk.NewCoin(fxtypes.DefaultDenom, amt))}, true, nil
 	case "/cosmos.distribution.v1beta1.MsgUpdateParams":
 		p, e := w.App.DistrKeeper.Params.Get(ctx)
@@ -244,6 +296,9 @@ func gmsg(w *World, kind string, a Args, auth string) (m sdk.Msg, handwritten bo
 	case "/cosmos.bank.v1beta1.MsgUpdateParams":
 		return &banktypes.MsgUpdateParams{Authority: auth, Params: w.App.BankKeeper.GetParams(ctx)}, true, nil
 	case "/cosmos.bank.v1beta1.MsgSetSendEnabled":
+		if shape == "use-default" {
+			return &banktypes.MsgSetSendEnabled{Authority: auth, UseDefaultFor: []string{fxtypes.DefaultDenom}}, true, nil
+		}
 		return &banktypes.MsgSetSendEnabled{Authority: auth, SendEnabled: []*banktypes.SendEnabled{{Denom: fxtypes.DefaultDenom, Enabled: false}}}, true, nil
 	case "/cosmos.staking.v1beta1.MsgUpdateParams":
 		p, e := w.App.StakingKeeper.GetParams(ctx)
@@ -432,6 +487,10 @@ func init() {
 			return nil, err
 		}
 		return &Built{Msgs: []sdk.Msg{m}}, nil
+	})
+	// g_create_vesting: the signer funds a new vesting account `to` (end = absolute unix time)
+	RegisterTx("g_create_vesting", func(w *World, t *Tx) (*Built, error) {
+		return &Built{Msgs: []sdk.Msg{vestingtypes.NewMsgCreateVestingAccount(gmustAddr(w, t.S), gmustAddr(w, t.A.Str("to")), sdk.NewCoins(fxc(t.A.SdkInt("amount"))), t.A.I64("end"), t.A.Bool("delayed"))}}, nil
 	})
 	// g_migrate: MsgMigrateAccount from the signer to key `to`; the signature is made by
 	// `sigkey` (default: to) over the pair (sigfrom default: signer, sigto default: to).
